@@ -37,7 +37,7 @@ def bump (cov : List (String × Nat)) (k : String) : List (String × Nat) :=
 
 def storeCov (o : OSt) : String :=
   let m := o.model
-  s!"store:{if o.dead.isEmpty then "" else "D"}{if o.nHandlers > 0 then "H" else ""}{if o.mayFail then "F" else ""}{if m.head.isNone then "E" else ""}{if m.pending.isEmpty then "" else "P"}"
+  s!"store:{if o.crashes > 0 then s!"crash{min 9 (o.crashes / 10)}x" else ""}{if o.dead.isEmpty then "" else "D"}{if o.nHandlers > 0 then "H" else ""}{if o.mayFail then "F" else ""}{if m.head.isNone then "E" else ""}{if m.pending.isEmpty then "" else "P"}"
 
 partial def loop (h : IO.FS.Stream) (lineNo : Nat) (a : DAcc) (cur : Option (Nat × OSt)) : IO DAcc := do
   let line ← h.getLine
